@@ -34,7 +34,9 @@ def regenerate(R):
                 "def signerSetup : List (String × String) := []\ndef signAssignments : List (String × String) := []\n"
                 "def loadAssignments : List (String × String) := []\ndef jwkLiteral : List (String × String) := []\n"
                 "def joseAlgorithm : List (String × String) := []\ndef rsaAlgorithms : List (Nat × String) := []\n"
-                "def ecdsaAlgorithms : List (Nat × String) := []\nend Heimdall.Gen.Signer\n")
+                "def ecdsaAlgorithms : List (Nat × String) := []\n"
+                "def joseSupport : List (String × List Nat) := []\ndef selectKey : List String := []\n"
+                "end Heimdall.Gen.Signer\n")
         with vlib.LeanLock():
             with open(GEN_FILE, "w") as fh:
                 fh.write(stub)
